@@ -124,11 +124,12 @@ Section Lift.
     assert (L : length l = length items) by (rewrite <- M; symmetry; apply map_length). rewrite L in Hsz. split; [exact Hsz|].
     rewrite <- M. clear M L E Hsz F. revert Fl. induction Hmap as [|v w l ws' Hvw _ IH]; intro Fl; [constructor|].
     inversion Fl as [|? ? Iv Il]; subst. cbn [map]. constructor; [|apply IH; exact Il].
-    unfold Conv.elem_as_word in Hvw. apply bind_ok in Hvw as (u' & Hc & Hw).
+    unfold Conv.elem_as_word in Hvw.
     destruct v as [| |n|]; try contradiction; cbn [of_conv].
-    - cbn [Conv.none_el] in Hw. destruct ne; [reflexivity|discriminate].
-    - cbn [Conv.auto_el] in Hw. destruct ae; [reflexivity|discriminate].
-    - destruct n; try contradiction. cbn [Conv.check_value_py Conv.lvmin Conv.lvmax] in Hc.
+    - cbn [Conv.none_el] in Hvw. destruct ne; [reflexivity|discriminate].
+    - cbn [Conv.auto_el] in Hvw. destruct ae; [reflexivity|discriminate].
+    - destruct n; try contradiction. apply bind_ok in Hvw as (u' & Hc & Hw).
+      cbn [Conv.check_value_py Conv.lvmin Conv.lvmax] in Hc.
       apply check_value_bounds in Hc. apply in_bounds_zbounds. exact Hc.
   Qed.
 
